@@ -70,10 +70,12 @@ fn eval_text(text: &str, words: &[(String, CW)], a: &mut Acc) {
 pub fn run() -> i32 {
     let mut r = Report::new("C06");
     let n = if r.thorough() { 4 } else { 3 };
-    r.rule = format!("every rule of rulegen({}) (full documented grammar: sets, optionals, ellipses, structures, variables, alphas, environment sets, special environment, condensed rules) with a mandatory literal /ɮ/ planted in every input alternative (insertion: in every context environment), at the end and at the start; plus blank and comment-only lines; x hand-shaped words{}; whenever the call returns Ok the structural word must equal the input. Non-trivial = rule compiled and the call returned Ok.", n, if r.thorough() { " and all decorated words of W(I4,3)" } else { "" });
+    r.rule = format!("every rule of rulegen({}) (full documented grammar: sets, optionals, ellipses, structures, variables, alphas, environment sets, special environment, condensed rules) (quick: plus every insertion rule of size 4) with a mandatory literal /ɮ/ planted in every input alternative (insertion: in every context environment), at the end and at the start; plus blank and comment-only lines; x hand-shaped words{}; whenever the call returns Ok the structural word must equal the input. Non-trivial = rule compiled and the call returned Ok.", n, if r.thorough() { " and all decorated words of W(I4,3)" } else { "" });
     r.assumptions.push("thorough: size-4 rules are restricted to those containing a structure, %, $, an ellipsis, an optional, a variable, or an insertion/deletion/metathesis output (the cursor-logic constructs); all size <= 3 rules are included".into());
     let words = decorated_words(r.thorough());
-    let bases = rulegen::bases_upto(n);
+    let mut bases = rulegen::bases_upto(n);
+    // quick tier: the insertion rules of size 4 as well (two environment items: the shapes where a partial context match can be accepted)
+    if !r.thorough() { bases.extend(rulegen::bases_of_size(4).into_iter().filter(|(b, rest)| b.is_insertion() && *rest == 2)); }
     let mut tot = acc();
     let thorough = r.thorough();
     par_fold(bases.len(), 4, acc, |i, a| {
@@ -98,7 +100,7 @@ pub fn run() -> i32 {
     r.boxes.push(json!({"box": format!("rulegen({}) planted x words", n), "skeletons": bases.len(), "words": words.len(), "applications": tot.evals, "ok_unchanged_by_rule_kind": tot.kinds}));
     r.guard(tot.ok_same > 100_000, "more than 100k applications returned Ok");
     r.guard(tot.kinds.len() == 4, "substitution, deletion, insertion and metathesis rules all returned Ok somewhere");
-    r.guard(tot.crashed * 50 < tot.evals.max(1), "fewer than 2% crashed");
+    r.guard(tot.crashed * 20 < tot.evals.max(1), "fewer than 5% of the applications crashed (crashes are C02 findings, mostly planted insertion contexts that loop)");
     r.sample(json!({"rule": plant(&rulegen::rules_of_size(3)[40000], 0).map(|p| p.text()), "word": words[4].0}));
     r.sample(json!({"rule": plant(&rulegen::rules_of_size(3)[60000], 1).map(|p| p.text()), "word": words[10].0}));
     for v in tot.viols { r.viol(v); }
